@@ -35,6 +35,21 @@ def parseMsg (s : String) : Option Msg :=
     | _, _, _, _ => none
   | _ => none
 
+/-- `watch:<uri>:<0|1 deleted>:<A | U | R<hex text>>`, `load:<uri>:<hex text>`, or one of the messages -/
+def parseEv (s : String) : Option Ev :=
+  match s.splitOn ":" with
+  | ["watch", u, del, disk] =>
+    let d : Option Disk := if disk == "A" then some .absent else if disk == "U" then some .unreadable
+      else if disk.startsWith "R" then (unhex (disk.drop 1).toString).map Disk.regular else none
+    match parseUri u, d with
+    | some u, some d => some (.watched u (del == "1") d)
+    | _, _ => none
+  | ["load", u, h] =>
+    match parseUri u, unhex h with
+    | some (.file u), some t => some (.loaded u t)
+    | _, _ => none
+  | _ => (parseMsg s).map Ev.msg
+
 def showOut : Out → String
   | .none => "-"
   | .response id ok => s!"r{id}={if ok then "ok" else "err"}"
@@ -43,11 +58,11 @@ def showOut : Out → String
 def run (args : List String) : Option String :=
   match args with
   | ["server", msgs] =>
-    match (msgs.splitOn " ").mapM parseMsg with
+    match (msgs.splitOn " ").mapM parseEv with
     | none => none
     | some ms =>
-      let (d, outs) := Server.run [] ms
-      let docs := d.map (fun p => s!"f{p.1}={hex p.2}")
+      let (s, outs) := Server.srun ⟨[], []⟩ ms
+      let docs := s.docs.map (fun p => s!"f{p.1}={hex p.2}")
       some (" ".intercalate (outs.map showOut) ++ " | " ++ " ".intercalate docs)
   | _ => none
 
